@@ -16,6 +16,7 @@ import (
 func init() {
 	ops["dec"] = opDec
 	ops["dec2"] = opDec2
+	ops["dec2x"] = opDec2x
 	ops["enc"] = opEnc
 	ops["rt4"] = opRt4
 	ops["canon"] = opCanon
@@ -196,6 +197,25 @@ func decodeInto(m *nas.Message, entry string, in *[]byte) error {
 // decoder starts from a fresh family struct, so the outcome must be that of decoding B into a fresh Message. (Across families
 // the other family's pointer is left as it was: outside C05's quantifier, which is over inputs; such pairs are not an op.)
 func opDec2(args []string) string {
+	if len(args) == 3 {
+		if pt, ok := msgTypes[args[0]]; ok {
+			// one message struct decoded into twice: the second result is that of a fresh struct (optional elements of the
+			// first input that the second does not carry stay attached on the unchanged tree too, so only inputs without an
+			// optional part are paired: the generator takes care of that)
+			a, ok1 := unhex(args[1])
+			b, ok2 := unhex(args[2])
+			if !ok1 || !ok2 {
+				return "bad-op"
+			}
+			body := reflect.New(pt.Elem())
+			body.MethodByName("Decode" + args[0]).Call([]reflect.Value{reflect.ValueOf(&a)})
+			res := body.MethodByName("Decode" + args[0]).Call([]reflect.Value{reflect.ValueOf(&b)})
+			if !res[0].IsNil() {
+				return "err " + errClass(res[0].Interface().(error))
+			}
+			return "ok " + showBody(args[0], body.Elem())
+		}
+	}
 	if len(args) != 3 || (args[0] != "plain" && args[0] != "gmm" && args[0] != "gsm") {
 		return "bad-op"
 	}
@@ -213,6 +233,24 @@ func opDec2(args []string) string {
 		return "err " + errClass(err)
 	}
 	return "ok " + showNas(m)
+}
+
+// dec2x <hexA> <hexB>: A then B through PlainNasDecode into one Message, any two inputs (other family included). What the
+// Message holds afterwards is not specified across families; that the second call returns is (C01): "done", or the harness
+// reports the panic.
+func opDec2x(args []string) string {
+	if len(args) != 2 {
+		return "bad-op"
+	}
+	a, ok1 := unhex(args[0])
+	b, ok2 := unhex(args[1])
+	if !ok1 || !ok2 {
+		return "bad-op"
+	}
+	m := nas.NewMessage()
+	_ = m.PlainNasDecode(&a)
+	_ = m.PlainNasDecode(&b)
+	return "done"
 }
 
 type ieSpec struct {
@@ -344,8 +382,24 @@ func encodeBuilt(fam, name string, m *nas.Message, body reflect.Value, pre []byt
 		}
 		return buf.Bytes(), nil
 	}
-	return m.PlainNasEncode()
+	out, err := m.PlainNasEncode()
+	if err == nil {
+		// the result is a value of its own: a later PlainNasEncode (of another message) must not overwrite it
+		snap := append([]byte{}, out...)
+		other := nas.NewMessage()
+		ob := []byte{0x7e, 0x00, 0x55}
+		if other.PlainNasDecode(&ob) == nil {
+			_, _ = other.PlainNasEncode()
+			_, _ = other.PlainNasEncode()
+		}
+		if !bytes.Equal(out, snap) {
+			return nil, errStaleEncode
+		}
+	}
+	return out, err
 }
+
+var errStaleEncode = errors.New("the bytes returned by PlainNasEncode were overwritten by a later PlainNasEncode")
 
 // enc <gmm|gsm|msg> hdr=<hex> <Msg> <fields>
 func opEnc(args []string) string {
